@@ -28,6 +28,7 @@ type Request struct {
 	CancelNs  int64          `json:"cancel_ns,omitempty"` // cancel the client ctx this long (virtual) after the call started
 	TimeoutNs int64          `json:"timeout_ns,omitempty"` // client deadline (what the timeout interceptor would set)
 	Streamed  bool           `json:"streamed,omitempty"`
+	ModelID   string         `json:"-"`                // run-time only: model id to send ("-" = omit; default: the scenario's model)
 	Store     string         `json:"-"`                // run-time only: store id to address (default: the scenario's store)
 }
 
